@@ -24,7 +24,15 @@ def errors_r3(sn):
             if not m:
                 break
             cp = match_close(mask, m.end() - 1)
-            sn.replace_range('R3', m.start(), cp + 1, 'ext_deser_error()', "%s..) -> ext_deser_error()" % pat)
+            # The message is opaque, but ARGUMENT EVALUATION is kept: an argument that is itself a call (e.g. `other.ref_t()`, which
+            # panics on a ValueObj) stays in the verified text and must be total. Paths, literals and references to them are dropped.
+            args = [a.strip() for a in rules.split_top(sn.text[m.end():cp]) if a.strip()]
+            kept = [a for a in args if re.search(r'\.\s*\w+\s*\(', a) and '::' not in a.split('.')[0]]   # method calls on local values (constructor calls of the expected type are dropped)
+            if kept:
+                new = '{ ' + ' '.join('let _ = %s;' % a for a in kept) + ' ext_deser_error() }'
+            else:
+                new = 'ext_deser_error()'
+            sn.replace_range('R3', m.start(), cp + 1, new, "%s..) -> ext_deser_error() (argument calls kept: %d)" % (pat, len(kept)))
 
 
 def reader_rewrites(sn):
@@ -192,6 +200,7 @@ fn w_vec1(x: u8) -> (r: Vec<u8>) ensures r@ == seq![x] { vec![x] }
 def run(run, replay=None):
     from units.C15 import cex as _cex
     run.fallbacks.append(("marshal writer/reader (boundary values, malformed inputs)", lambda: _cex.fallback(run)))
+    run.explorations.append(("pyc read back", lambda: _cex.explore_files(run)))
     unit = build(run)
     res = unit.run(rlimit=60)
     run.add_verus(unit, res, cex_finder=lambda f: find_cex(run, f))
